@@ -414,6 +414,7 @@ func runC04(c *Ctx) {
 		mk   func() []byte        // a valid encoding
 		dec  func([]byte) []byte  // decode with a fresh object; nil if rejected, else its Marshal()
 		hot  []int
+		fresh func([]byte) []byte // decode, copy the fields into a newly constructed value, Marshal that
 	}
 	kinds := []reqKind{
 		{"req1", func() []byte {
@@ -426,7 +427,13 @@ func runC04(c *Ctx) {
 				return nil
 			}
 			return q.Marshal()
-		}, []int{0, 1, 2}},
+		}, []int{0, 1, 2}, func(b []byte) []byte {
+			q := &type1.BasicPrivateTokenRequest{}
+			if !q.Unmarshal(b) {
+				return nil
+			}
+			return (&type1.BasicPrivateTokenRequest{TokenKeyID: q.TokenKeyID, BlindedReq: append([]byte{}, q.BlindedReq...)}).Marshal()
+		}},
 		{"req2", func() []byte {
 			q := &type2.BasicPublicTokenRequest{TokenKeyID: byte(r.Uint32()), BlindedReq: r.Bytes(256)}
 			c.Run("c04.req2m", strconv.Itoa(int(q.TokenKeyID)), hx(q.BlindedReq))
@@ -437,7 +444,13 @@ func runC04(c *Ctx) {
 				return nil
 			}
 			return q.Marshal()
-		}, []int{0, 1, 2}},
+		}, []int{0, 1, 2}, func(b []byte) []byte {
+			q := &type2.BasicPublicTokenRequest{}
+			if !q.Unmarshal(b) {
+				return nil
+			}
+			return (&type2.BasicPublicTokenRequest{TokenKeyID: q.TokenKeyID, BlindedReq: append([]byte{}, q.BlindedReq...)}).Marshal()
+		}},
 		{"req3", func() []byte {
 			q := &type3.RateLimitedTokenRequest{RequestKey: r.Bytes(49), NameKeyID: r.Bytes(32), EncryptedTokenRequest: r.Bytes(1 + r.IntN(400)), Signature: r.Bytes(96)}
 			c.Run("c04.req3m", hx(q.RequestKey), hx(q.NameKeyID), hx(q.EncryptedTokenRequest), hx(q.Signature))
@@ -448,7 +461,13 @@ func runC04(c *Ctx) {
 				return nil
 			}
 			return q.Marshal()
-		}, []int{0, 1, 83, 84}},
+		}, []int{0, 1, 83, 84}, func(b []byte) []byte {
+			q := &type3.RateLimitedTokenRequest{}
+			if !q.Unmarshal(b) {
+				return nil
+			}
+			return (&type3.RateLimitedTokenRequest{RequestKey: q.RequestKey, NameKeyID: q.NameKeyID, EncryptedTokenRequest: q.EncryptedTokenRequest, Signature: q.Signature}).Marshal()
+		}},
 		{"inner", func() []byte {
 			k, m, o := byte(r.Uint32()), r.Bytes(256), r.Bytes(32*r.IntN(4))
 			c.Run("c04.innerm", strconv.Itoa(int(k)), hx(m), hx(o))
@@ -459,7 +478,14 @@ func runC04(c *Ctx) {
 				return nil
 			}
 			return q.Marshal()
-		}, []int{0, 257, 258}},
+		}, []int{0, 257, 258}, func(b []byte) []byte {
+			q := &type3.InnerTokenRequest{}
+			if !q.Unmarshal(b) {
+				return nil
+			}
+			k, m, o := q.VerifFields()
+			return type3.VerifNewInnerTokenRequest(k, m, o).Marshal()
+		}},
 		{"req5", func() []byte {
 			n := r.IntN(5)
 			if r.IntN(10) == 0 {
@@ -478,7 +504,13 @@ func runC04(c *Ctx) {
 				return nil
 			}
 			return q.Marshal()
-		}, []int{0, 1, 2, 3, 4}},
+		}, []int{0, 1, 2, 3, 4}, func(b []byte) []byte {
+			q := &type5.BatchedPrivateTokenRequest{}
+			if !q.Unmarshal(b) {
+				return nil
+			}
+			return (&type5.BatchedPrivateTokenRequest{TokenKeyID: q.TokenKeyID, BlindedReq: q.BlindedReq}).Marshal()
+		}},
 	}
 	for i := 0; i < N; i++ {
 		for _, k := range kinds {
@@ -504,6 +536,8 @@ func runC04(c *Ctx) {
 					c.Count(k.name + ":mut-accepted")
 					cm2 := k.dec(cm)
 					c.Direct(len(cm) <= len(m) && cm2 != nil && eq(cm2, cm), k.name+" canonical re-encoding of an accepted string", map[string]any{"b": hx(m), "canonical": hx(cm)})
+					// … and what Marshal returns after Unmarshal is the canonical encoding: the one a newly built value with the same fields has
+					c.Direct(eq(cm, k.fresh(m)), k.name+" Marshal after Unmarshal differs from the encoding of a fresh value with the same fields", map[string]any{"b": hx(m), "after_unmarshal": hx(cm), "fresh": hx(k.fresh(m))})
 				} else {
 					c.Count(k.name + ":mut-rejected")
 				}
@@ -681,6 +715,40 @@ func runC04(c *Ctx) {
 				c.Count("batch:mut-rejected")
 			}
 		}
+	}
+
+	// large batches: the list length needs the 4-byte varint form (> 16383 bytes)
+	for _, n := range []int{64, 70} {
+		var reqs []tokens.TokenRequestWithDetails
+		var ss []string
+		for k := 0; k < n; k++ {
+			q := &type2.BasicPublicTokenRequest{TokenKeyID: byte(k), BlindedReq: r.Bytes(256)}
+			reqs = append(reqs, q)
+			ss = append(ss, fmtReqWD(q))
+		}
+		c.Run("c04.batchm", strings.Join(ss, ","))
+		br, _ := batched.NewBasicClient().CreateTokenRequest(reqs)
+		enc := br.Marshal()
+		c.Run("c04.batch", hx(enc))
+		c.Count("batch:valid/large")
+		q := &batched.BatchedTokenRequest{}
+		c.Direct(q.Unmarshal(enc) && len(q.VerifRequests()) == n && eq(q.Marshal(), enc), "large batch decode(encode rs) != rs", map[string]any{"n": n})
+		c.Run("c04.batch", hx(enc[:len(enc)-1]))
+		c.Run("c04.batch", hx(append(append([]byte{}, enc...), 7)))
+	}
+	// type-5 requests whose element list needs the 4-byte varint form
+	for _, n := range []int{511, 512, 513, 600} {
+		var els [][]byte
+		for k := 0; k < n; k++ {
+			els = append(els, r.Bytes(32))
+		}
+		q := &type5.BatchedPrivateTokenRequest{TokenKeyID: 9, BlindedReq: els}
+		c.Run("c04.req5m", "9", hxList(els))
+		enc := q.Marshal()
+		c.Run("c04.req5", hx(enc))
+		c.Count("req5:valid/large")
+		q2 := &type5.BatchedPrivateTokenRequest{}
+		c.Direct(q2.Unmarshal(enc) && len(q2.BlindedReq) == n && eq(q2.Marshal(), enc), "large type-5 request decode(encode v) != v", map[string]any{"n": n})
 	}
 
 	// ---- generic batch response list ----
